@@ -294,7 +294,7 @@ pub fn big_alphabet() -> Vec<Snippet> {
     v.push(vec![inst(Inst::CsrI(CsrOp::Rw, T2, 64, 5))]);
     v.push(vec![inst(Inst::Csr(CsrOp::Rw, ZERO, 5, T0))]);
     v.push(vec![call("g")]);
-    for n in [1, 4, 5, 8, 9, 11, 12, 30, 42, 54, 55, 64, 77] {
+    for n in [1, 4, 5, 8, 9, 11, 12, 30, 42, 51, 54, 55, 64, 77] {
         v.push(vec![li(A7, n), ecall()]);
     }
     v.push(vec![ecall()]);
@@ -386,7 +386,7 @@ pub fn skeleton_fillers() -> Vec<Snippet> {
     ]
 }
 
-pub const N_SKELETONS: usize = 17;
+pub const N_SKELETONS: usize = 18;
 
 /// Build skeleton `k` with slots `s` (4 entries, indices into fillers).
 pub fn skeleton(k: usize, s: &[usize]) -> Program {
@@ -618,6 +618,23 @@ pub fn skeleton(k: usize, s: &[usize]) -> Program {
             b.push(addi(A7, 12, 1));
             b.push(ecall());
             b.extend(sl(2));
+            b.extend(sl(3));
+        }
+        17 => {
+            // a function that calls another one and then falls into it: the value the first
+            // function leaves in a0 is read by the second
+            ctx = Context::Callee;
+            b.push(addi(SP, SP, -4));
+            b.push(sw(RA, 0, SP));
+            b.extend(sl(0));
+            b.push(call("h"));
+            b.push(lw(RA, 0, SP));
+            b.push(addi(SP, SP, 4));
+            b.extend(sl(1));
+            b.push(addi(A0, A0, 1));
+            b.extend(sl(2));
+            b.push(label("h"));
+            b.push(addi(A0, A0, 2));
             b.extend(sl(3));
         }
         _ => {
